@@ -394,6 +394,8 @@ class BddMachine(Machine):
                                 got=U.fmt(den(r)), want=U.fmt(mask))
             if hasattr(m, 'ref') and (m.ref(r) != m._ref[abs(r)] or m.ref(-r) != m._ref[abs(r)]):
                 raise Violation('ref(u) does not report the reference count of the node', ref=r)
+            if r not in m or -r not in m:
+                raise Violation('a held reference is reported as not in the manager', ref=r)
 
     def key(self, st):
         return S.key(st.m, (sorted(st.h), len(st.b)))
